@@ -43,7 +43,7 @@ def known(kfid, detail=""):
 
 def kf1(mgr, run_order, shadow, runner):
     info = mgrmon.writers_and_reads(shadow, runner)
-    return mgrmon.classify_kf1(mgr, run_order, info)
+    return mgrmon.classify_kf1(mgr, run_order, info, mgrmon.task_kinds(shadow))
 
 
 # ---- KF5: computed key directly on a top-level container --------------------------
